@@ -35,6 +35,8 @@ PROPAGATING_METHODS = {
 }
 CONVERSIONS = {"str", "bytes", "utf8", "native_str", "to_unicode", "to_basestring", "_unicode", "escape.native_str", "escape.utf8", "escape.to_unicode", "list", "tuple", "dict", "sorted", "set"}
 SCOPE = (ast.Lambda, ast.FunctionDef, ast.AsyncFunctionDef, ast.ClassDef)
+NONSTR = "~nonstr"  # marker: the path was only shown not to be a ``str``; it may still be bytes carrying the characters
+DECODERS = {"native_str", "to_unicode", "_unicode", "to_basestring", "str", "decode", "format", "join"}
 
 
 def _prefixes(d: str) -> List[str]:
@@ -54,6 +56,12 @@ def expr_tainted(e: ast.AST, tainted: Iterable[str], sanitizers: Iterable[str] =
             r = expr_hook(x)
             if r is not None:
                 return r
+        if isinstance(x, ast.Call) and q.call_attr(x) in DECODERS:
+            # a value known only to be "not a str" (e.g. bytes) becomes text again when decoded
+            operand = x.func.value if (isinstance(x.func, ast.Attribute) and x.func.attr == "decode") else (x.args[0] if x.args else None)
+            d = q.dotted(operand) if isinstance(operand, (ast.Name, ast.Attribute)) else None
+            if d is not None and any((p + NONSTR) in tainted for p in _prefixes(d)):
+                return True
         if isinstance(x, ast.Call):
             nm = q.call_attr(x)
             d = q.dotted(x.func)
@@ -103,7 +111,14 @@ def clean_path(state: FrozenSet[str], path: str) -> FrozenSet[str]:
                 if b in same and a not in same:
                     same.add(a)
                     changed = True
-    return frozenset(s for s in state if s not in same)
+    return frozenset(s for s in state if s not in same and not (s.endswith(NONSTR) and s[: -len(NONSTR)] in same))
+
+
+def demote_path(state: FrozenSet[str], path: str) -> FrozenSet[str]:
+    """``path`` is no longer text-tainted but only known to be a non-str value."""
+    was = path in tainted_of(state)
+    st = clean_path(state, path)
+    return (st | {path + NONSTR}) if was or True else st
 
 
 def tainted_of(state: FrozenSet[str]) -> Set[str]:
@@ -138,7 +153,10 @@ def flow_taint(
         for path, strong in _targets(t):
             if strong:
                 # forget everything known about path and below
-                cur = {s for s in cur if not (s == path or s.startswith(path + ".") or s.startswith(path + "=") or s.endswith("=" + path))}
+                cur = {s for s in cur if not (s == path or s.startswith(path + ".") or s.startswith(path + "=") or s.endswith("=" + path) or s == path + NONSTR)}
+                srcp = q.dotted(val) if isinstance(val, (ast.Name, ast.Attribute)) else None
+                if srcp and (srcp + NONSTR) in st:
+                    cur.add(path + NONSTR)
                 if val_tainted:
                     cur.add(path)
                     src = q.dotted(val) if isinstance(val, (ast.Name, ast.Attribute)) else None
@@ -156,7 +174,12 @@ def flow_taint(
         if n.ast is None:
             return st
         if n.kind == "for":
-            return assign(st, n.ast.target, None, is_t(n.ast.iter, st))
+            out = assign(st, n.ast.target, None, is_t(n.ast.iter, st))
+            if any(s.endswith(NONSTR) and s[: -len(NONSTR)] in q.paths_in(n.ast.iter) for s in st):
+                for path, strong in _targets(n.ast.target):
+                    if strong and path not in tainted_of(out):
+                        out = out | {path + NONSTR}
+            return out
         if n.kind == "with":
             for it in n.ast.items:
                 if it.optional_vars is not None:
@@ -188,7 +211,10 @@ def flow_taint(
     def edge(n: Node, kind: str, st: FrozenSet[str]):
         if clean_on_edge is not None and kind in ("true", "false") and n.kind in ("test", "for"):
             for p in clean_on_edge(n, kind, tainted_of(st)) or ():
-                st = clean_path(st, p)
+                if p.startswith("~"):
+                    st = demote_path(st, p[1:]) if p[1:] in tainted_of(st) else st
+                else:
+                    st = clean_path(st, p)
         return st
 
     seen = explore(cfg, frozenset(sources), transfer, lambda t: False, edge_transfer=edge, follow_exc=follow_exc)
